@@ -137,7 +137,12 @@ func (w *c16World) tx(payee, tag, a1, a2, comm int, date, qty string) string {
 	w.acc.add(c16Accounts[a1], 1)
 	w.acc.add(c16Accounts[a2], 1)
 	w.com.add(c16Comms[comm], 2)
-	return date + " " + c16Payees[payee] + "  ; " + c16Tags[tag] + ":v\n" +
+	// the third payee is always written with a note ("Cafe | n"): the name offered and counted is the payee
+	note := ""
+	if payee == 2 {
+		note = " | n"
+	}
+	return date + " " + c16Payees[payee] + note + "  ; " + c16Tags[tag] + ":v\n" +
 		"    " + c16Accounts[a1] + "  " + qty + " " + c16Comms[comm] + "\n" +
 		"    " + c16Accounts[a2] + "  -" + qty + " " + c16Comms[comm] + "\n"
 }
